@@ -316,13 +316,15 @@ PROPS = {
     "C08": {
         "modules": ["Sheens.Props.C08"],
         "theorems": [],
-        "facts": ["es_error_exits_nil_exe", "try_adds_no_guard_events"],
+        "facts": ["es_error_exits_nil_exe", "es_every_error_exit_nil_exe", "try_adds_no_guard_events"],
         "runs": {
-            "quick": [("walk", ["-profile", "failing", "-n", "7000"]), ("step", ["-profile", "failing", "-n", "5000"])],
-            "thorough": [("walk", ["-profile", "failing", "-n", "50000"]), ("step", ["-profile", "failing", "-n", "30000"])],
+            "quick": [("walk", ["-profile", "failing", "-n", "7000"]), ("step", ["-profile", "failing", "-n", "5000"]),
+                      ("crew", ["-profile", "crew", "-n", "1000"])],
+            "thorough": [("walk", ["-profile", "failing", "-n", "50000"]), ("step", ["-profile", "failing", "-n", "30000"]),
+                         ("crew", ["-profile", "crew", "-n", "10000"])],
         },
         "analyze": analyze_generic,
-        "oracles": ["emitExact"],
+        "oracles": ["emitExact", "crewEmitExact"],
         "probes": [],
         "rule": ENGINE_RULE,
     },
